@@ -24,6 +24,8 @@ FIELDS = {"fq": (ref.q, 384), "fr": (ref.r, 256)}
 
 def getlib(cfg):
     L = ffi.lib("asm" if cfg == "asm-base" else cfg)
+    if getattr(L, "readonly", False):
+        return L            # write-protected image (C20 monitor): the dispatch table cannot be switched
     if cfg == "asm-base":
         assert L.f("vk_dispatch")(0) == 0
     elif cfg == "asm":
